@@ -106,7 +106,16 @@ func c08(c *Ctx) {
 	}
 	_ = lit
 	units = us
-	hu, hdecl := c08headerUnit(c, l)
+	type hunit struct {
+		u    *routeUnit
+		decl []c08hdr
+		mode string
+	}
+	var hus []hunit
+	for _, mode := range []string{"required", "optional", "mixed"} {
+		hu, hdecl := c08headerUnit(c, l, mode)
+		hus = append(hus, hunit{hu, hdecl, mode})
+	}
 	if un := l.CompileAll(false); un != "" {
 		c.R.Harness("unattributed build output: " + firstLines(un, 10))
 		return
@@ -127,9 +136,11 @@ func c08(c *Ctx) {
 		u.Diags = l.Failed[u.Dir]
 		c08unit(c, u, ch, node, enc)
 	}
-	if hu != nil {
-		hu.Diags = l.Failed[hu.Dir]
-		c08headers(c, hu, hdecl, ch, node)
+	for _, h := range hus {
+		if h.u != nil {
+			h.u.Diags = l.Failed[h.u.Dir]
+			c08headers(c, h.u, h.decl, h.mode, ch, node)
+		}
 	}
 }
 
@@ -355,19 +366,31 @@ func subOf(u *routeUnit) string {
 }
 
 type c08hdr struct {
-	Name  string
-	Level string // service | method
+	Name     string
+	Level    string // service | method
+	Required bool
 }
 
-func c08headerUnit(c *Ctx, l *lab.Lab) (*routeUnit, []c08hdr) {
-	pkg := "c08.hdr"
-	f := &spec.File{Path: "c08/hdr.proto", Package: pkg, GoImport: "lab/gen/c08hdr", GoName: "c08hdr"}
+// c08headerUnit declares the same five headers with different requiredness: "required" (all),
+// "optional" (none: a file whose servers have nothing to enforce), "mixed" (optional first).
+func c08headerUnit(c *Ctx, l *lab.Lab, mode string) (*routeUnit, []c08hdr) {
+	sfx := map[string]string{"required": "", "optional": "o", "mixed": "m"}[mode]
+	pkg := "c08.hdr" + sfx
+	f := &spec.File{Path: "c08/hdr" + sfx + ".proto", Package: pkg, GoImport: "lab/gen/c08hdr" + sfx, GoName: "c08hdr" + sfx}
 	f.Messages = []*spec.Message{{Name: "HReq", Fields: []*spec.Field{spec.F("id", 1, spec.String)}}, {Name: "HResp", Fields: []*spec.Field{spec.F("echo", 1, spec.String), spec.F("num_val", 2, spec.Int64)}}}
-	decl := []c08hdr{{"X-API-Key", "service"}, {"Authorization", "service"}, {"X-Request-ID", "method"}, {"x-lower", "method"}, {"X-Multi-Word-Name", "method"}}
+	decl := []c08hdr{{"X-API-Key", "service", true}, {"Authorization", "service", true}, {"X-Request-ID", "method", true}, {"x-lower", "method", true}, {"X-Multi-Word-Name", "method", true}}
+	for i := range decl {
+		switch mode {
+		case "optional":
+			decl[i].Required = false
+		case "mixed":
+			decl[i].Required = i%2 == 1
+		}
+	}
 	svc := &spec.Service{Name: "HelperService", BasePath: spec.S("/hh")}
 	m := &spec.Method{Name: "Ping", In: "." + pkg + ".HReq", Out: "." + pkg + ".HResp", HTTP: &spec.HTTP{Path: "/ping", Verb: 2}}
 	for _, d := range decl {
-		h := spec.Header{Name: d.Name, Type: "string", Required: true}
+		h := spec.Header{Name: d.Name, Type: "string", Required: d.Required}
 		if d.Level == "service" {
 			svc.Headers = append(svc.Headers, h)
 		} else {
@@ -386,13 +409,18 @@ func c08headerUnit(c *Ctx, l *lab.Lab) (*routeUnit, []c08hdr) {
 
 // c08headers: a header set only through a typed helper option arrives under exactly the name
 // the servers validate (all other required headers are supplied as plain headers).
-func c08headers(c *Ctx, u *routeUnit, decl []c08hdr, ch, node *lab.Child) {
+func c08headers(c *Ctx, u *routeUnit, decl []c08hdr, mode string, ch, node *lab.Child) {
 	protoText := u.File.Proto()
+	msfx := ""
+	if mode != "required" {
+		msfx = "/decl=" + mode
+	}
+	pkg := u.File.Package
 	if d := emittedDiag(u.Diags); d != nil {
-		c.R.Violate("interop/helpers/all", "compile", d.Msg, map[string]any{"proto": protoText})
+		c.R.Violate("interop/helpers/all"+msfx, "compile", d.Msg, map[string]any{"proto": protoText})
 		return
 	}
-	svcFull := "c08.hdr.HelperService"
+	svcFull := pkg + ".HelperService"
 	gs, err := serveGo(ch, []string{svcFull}, "none", false)
 	if err != nil {
 		c.R.Harness("cannot serve helper service: " + err.Error())
@@ -415,7 +443,7 @@ func c08headers(c *Ctx, u *routeUnit, decl []c08hdr, ch, node *lab.Child) {
 	for _, m := range reCallHelper.FindAllStringSubmatch(src, -1) {
 		call[m[2]] = m[1]
 	}
-	d, _ := u.Reg.FindDescriptorByName("c08.hdr.HReq")
+	d, _ := u.Reg.FindDescriptorByName(protoreflect.FullName(pkg + ".HReq"))
 	md := d.(protoreflect.MessageDescriptor)
 	req := dynamicpb.NewMessage(md)
 	req.Set(md.Fields().ByName("id"), protoreflect.ValueOfString("x"))
@@ -431,7 +459,7 @@ func c08headers(c *Ctx, u *routeUnit, decl []c08hdr, ch, node *lab.Child) {
 			others := func() []map[string]string {
 				var kv []map[string]string
 				for _, o := range decl {
-					if o.Name != h.Name {
+					if o.Name != h.Name && o.Required {
 						kv = append(kv, map[string]string{"K": o.Name, "V": "v-" + strings.ToLower(o.Name)})
 					}
 				}
@@ -440,13 +468,13 @@ func c08headers(c *Ctx, u *routeUnit, decl []c08hdr, ch, node *lab.Child) {
 			othersObj := func() map[string]string {
 				m := map[string]string{}
 				for _, o := range decl {
-					if o.Name != h.Name {
+					if o.Name != h.Name && o.Required {
 						m[o.Name] = "v-" + strings.ToLower(o.Name)
 					}
 				}
 				return m
 			}
-			shape := strings.ToLower(h.Name)
+			shape := strings.ToLower(h.Name) + msfx
 			type variant struct {
 				Label string
 				Go    map[string]any
@@ -482,7 +510,7 @@ func c08headers(c *Ctx, u *routeUnit, decl []c08hdr, ch, node *lab.Child) {
 					for k, x := range v.Go {
 						opts[k] = x
 					}
-					out, err := callGo(ch, svcFull, target.S.URL, "Ping", "c08.hdr.HReq", wire(req), opts)
+					out, err := callGo(ch, svcFull, target.S.URL, "Ping", pkg+".HReq", wire(req), opts)
 					c.R.Eval(1)
 					if err != nil {
 						c.R.Inconclusive(caseID, "call")
